@@ -7,9 +7,11 @@ cd /verif
 if ! git -C /repo diff --quiet; then echo "/repo has uncommitted changes, refusing"; exit 2; fi
 PROPS="$@"
 if [ -z "$PROPS" ]; then PROPS=$(python3 -c "import json;print(json.load(open('$SEED/meta.json'))['property'])"); fi
-git -C /repo apply "$(realpath $SEED/patch.diff)" || { echo "PATCH DOES NOT APPLY"; exit 2; }
+EVBAK=$(mktemp -d /tmp/evbak.XXXX); cp -r evidence/. $EVBAK/ 2>/dev/null   # evidence of the clean tree is restored afterwards
+git -C /repo apply "$(realpath $SEED/patch.diff)" || { echo "PATCH DOES NOT APPLY"; rm -rf $EVBAK; exit 2; }
 for p in $PROPS; do
   echo "--- $p on seed $(basename $SEED)"
   ./check $p --tier quick 2>&1 | grep -v "^  " | cut -c1-260 | tail -8
 done
 git -C /repo checkout -- .
+cp -r $EVBAK/. evidence/ 2>/dev/null; rm -rf $EVBAK
